@@ -690,7 +690,9 @@ Section Prog.
     match t with
     | None => ret (inr tt)
     | Some TColon => discard_remaining_tokens ;;; ret (inl tt)
-    | Some TElse => statement_or_goto_line_number rec ;;; ret (inr tt)
+    | Some TElse =>
+        statement_or_goto_line_number rec ;;;
+        e <- peek_is TElse ;; (if e then discard_remaining_tokens else ret tt) ;;; ret (inr tt)
     | Some _ => ret (inl tt)
     end.
 
